@@ -14,12 +14,14 @@ EXTENDS Integers, Sequences, FiniteSets
 Empty == <<0, 0>>
 Other(d) == 3 - d
 
+Flip(x) == IF x = 1 THEN 2 ELSE 1          \* the function handed to map / map_error
 DefaultOf(kind) == IF kind = "expected" THEN <<1, 0>> ELSE Empty
 
 Names(kind) ==
   CASE kind = "optional" -> {"default", "value", "value_copy", "value_conv", "null", "copy_construct", "move_construct", "copy_assign", "move_assign",
                              "assign_null", "assign_value", "assign_conv", "assign_conv_copy", "emplace"}
-    [] kind = "expected" -> {"default", "value", "error", "copy_construct", "move_construct", "copy_assign", "move_assign"}
+    [] kind = "expected" -> {"default", "value", "error", "copy_construct", "move_construct", "copy_assign", "move_assign",
+                             "unwrap", "map", "map_error"}
     [] kind = "variant" -> {"default", "value", "copy_construct", "move_construct", "copy_assign", "move_assign", "emplace"}
     [] kind = "manual_box" -> {"value", "destruct"}
 
@@ -28,6 +30,7 @@ Legal(kind, op, st) ==
   CASE kind = "manual_box" /\ op.name = "value" -> st[op.d][1] = 0        \* initialize() on an uninitialised box
     [] kind = "manual_box" /\ op.name = "destruct" -> st[op.d][1] = 1
     [] kind = "expected" /\ op.name = "error" -> op.x # 0                 \* E{} means "no error"
+    [] kind = "expected" /\ op.name = "unwrap" -> st[op.d][1] = 1           \* unwrap() of an error is a contract violation
     [] OTHER -> TRUE
 
 \* alternative index used by value / emplace (1 for everything but variant)
@@ -43,6 +46,11 @@ Eff(kind, op, st) ==
     [] op.name = "error" -> [st EXCEPT ![d] = <<2, op.x>>]
     \* copying and moving leave the source as it is (a moved-from holder stays engaged)
     [] op.name \in {"copy_construct", "move_construct", "copy_assign", "move_assign"} -> [st EXCEPT ![d] = st[o]]
+    \* unwrap() moves the value out; the holder stays in the value state (the harness compares the returned value)
+    [] op.name = "unwrap" -> st
+    \* d := other.map(Flip) / other.map_error(Flip): the function is applied to the value (to the error), the other side is passed on
+    [] op.name = "map" -> [st EXCEPT ![d] = IF st[o][1] = 1 THEN <<1, Flip(st[o][2])>> ELSE st[o]]
+    [] op.name = "map_error" -> [st EXCEPT ![d] = IF st[o][1] = 2 THEN <<2, Flip(st[o][2])>> ELSE st[o]]
     \* assignment from an optional of another (convertible) type: engaged with x when i = 1, else disengaged
     \* (assign_conv takes the source as an rvalue, assign_conv_copy as a const lvalue: two different overloads)
     [] op.name \in {"assign_conv", "assign_conv_copy"} -> [st EXCEPT ![d] = IF op.i = 1 THEN <<1, op.x>> ELSE Empty]
